@@ -208,6 +208,11 @@ class Bounds:
             nm = e[1] or ""
             if re.search(r"(^|::)(alloc::vec::Vec|\[T\]|str|alloc::string::String|core::slice::<impl \[T\]>|core::str::<impl str>)::len$", nm):
                 return ISIZE_MAX
+            # lossless widening (`usize::from(x)`, `u64::from(x)`, `x.into()`): the bound of the argument carries over
+            if re.search(r"core::convert::(From<(u8|u16|u32)>>::from|From::from|Into::into|Into<.*>>::into)$", nm) and len(e) > 2 and len(e[2]) == 1:
+                inner = self.ub(e[2][0])
+                if inner is not None:
+                    return inner
             return TY_MAX.get(e[3]) if len(e) > 3 and e[3] in ("u8", "u16", "u32") else None
         if k == "named":
             return TY_MAX.get(e[2]) if e[2] in ("u8", "u16", "u32") else None
